@@ -35,25 +35,32 @@ Keep == st
 R(X) == RandomElement(X)       \* parameters are drawn by TLC's simulator; the op kind is the nondeterministic choice
 OkSlots == {i \in S : Ok(i)}
 AllOk(l) == \A i \in 1 .. Len(l) : Ok(l[i])
-RList(X) == LET n == R({0, 1, 2, 3, 4, 5, 6}) IN [i \in 1 .. n |-> R(X)]
+RList(X) == [i \in 1 .. R({0, 1, 2, 3, 4, 5, 6}) |-> R(X)]
 Next ==
   \/ /\ Len(prog) < Depth /\ prog # <<>>
      /\ \/ \E o \in {"add", "sub", "addmixed"} :
-             LET d == R(S)  a == R(OkSlots)  b == R(OkSlots) IN Step(Op(o, d, a, b, "", <<>>), [st EXCEPT ![d] = "ok"])
+             \E d \in {R(S)}, a \in {R(OkSlots)}, b \in {R(OkSlots)} : Step(Op(o, d, a, b, "", <<>>), [st EXCEPT ![d] = "ok"])
         \/ \E o \in {"double", "neg", "set", "encdec", "encdecu"} :
-             LET d == R(S)  a == R(OkSlots) IN Step(Op(o, d, a, 0, "", <<>>), [st EXCEPT ![d] = "ok"])
-        \/ LET d == R(S)  a == R(OkSlots) IN Step(Op("smul", d, a, 0, R(ScalarCl), <<>>), [st EXCEPT ![d] = "ok"])
-        \/ \E o \in {"normalize", "flip"} : LET d == R(OkSlots) IN Step(Op(o, d, 0, 0, "", <<>>), Keep)
-        \/ LET d == R(OkSlots) IN Step(Op("rescale", d, 0, 0, R(ZCl), <<>>), Keep)
-        \/ LET d == R(S) IN Step(Op("id", d, 0, 0, "", <<>>), [st EXCEPT ![d] = "ok"])
-        \/ LET d == R(S) IN Step(Op("srs", d, R({0, 1, 4, 5, 128, 255}), 0, "", <<>>), [st EXCEPT ![d] = "ok"])
-        \/ LET d == R(S) IN Cardinality(OkSlots \ {d}) >= 3 /\ Step(Op("zero", d, 0, 0, "", <<>>), [st EXCEPT ![d] = "zero"])
-        \/ LET d == R(S) IN Cardinality(OkSlots \ {d}) >= 3 /\ Step(Op("inf", d, 0, 0, "", <<>>), [st EXCEPT ![d] = "inf"])
+             \E d \in {R(S)}, a \in {R(OkSlots)} : Step(Op(o, d, a, 0, "", <<>>), [st EXCEPT ![d] = "ok"])
+        \/ \E d \in {R(S)}, a \in {R(OkSlots)} : Step(Op("smul", d, a, 0, R(ScalarCl), <<>>), [st EXCEPT ![d] = "ok"])
+        \/ \E o \in {"normalize", "flip"} : \E d \in {R(OkSlots)} : Step(Op(o, d, 0, 0, "", <<>>), Keep)
+        \/ \E d \in {R(OkSlots)} : Step(Op("rescale", d, 0, 0, R(ZCl), <<>>), Keep)
+        \/ \E d \in {R(S)} : Step(Op("id", d, 0, 0, "", <<>>), [st EXCEPT ![d] = "ok"])
+        \/ \E d \in {R(S)} : Step(Op("srs", d, R({0, 1, 4, 5, 128, 255}), 0, "", <<>>), [st EXCEPT ![d] = "ok"])
+        \/ \E d \in {R(S)} : Cardinality(OkSlots \ {d}) >= 3 /\ Step(Op("zero", d, 0, 0, "", <<>>), [st EXCEPT ![d] = "zero"])
+        \/ \E d \in {R(S)} : Cardinality(OkSlots \ {d}) >= 3 /\ Step(Op("inf", d, 0, 0, "", <<>>), [st EXCEPT ![d] = "inf"])
         \* batch helpers over pointer lists with arbitrary aliasing (C19); bnorm may meet an un-normalisable element
         \/ \E o \in {"bnorm", "bbytes", "bunc", "bmap"} :
-             LET l == RList(IF o = "bnorm" THEN {i \in S : st[i] # "zero"} ELSE OkSlots) IN Step(Op(o, 0, 0, 0, "", l), Keep)
+             \E l \in {RList(IF o = "bnorm" THEN {i \in S : st[i] # "zero"} ELSE OkSlots)} : Step(Op(o, 0, 0, 0, "", l), Keep)
+        \* batch helpers on a private heap: lengths around the worker-partition boundaries (NumCPU, 32, 256), pointer aliasing
+        \* patterns, optionally one un-normalisable cell at a TLC-chosen position (C19)
+        \* (a random choice must be bound through a singleton set: LET would draw again at every reference)
+        \/ \E o \in {"Bnorm", "Bbytes", "Bunc", "Bmap"} :
+             \E n \in {R({0, 1, 2, 3, 15, 16, 17, 31, 32, 33, 34, 64, 100, 255, 256, 257, 300})} :
+               \E bad \in {IF o = "Bnorm" /\ n > 0 /\ R({0, 1}) = 1 THEN R(1 .. (IF n > 0 THEN n ELSE 1)) ELSE 0} :
+                 Step(Op(o, 0, n, bad, R({"distinct", "allsame", "pairs", "firstlast", "cycle3", "reverse"}), <<>>), Keep)
         \* variable-base MSM over pool slots
-        \/ LET d == R(S)  l == RList(OkSlots) IN Step(Op("msm", d, R({0, 1, 3, 16}), R({0, 1}), R({"mix1", "mix2", "small", "zero"}), l), [st EXCEPT ![d] = "ok"])
+        \/ \E d \in {R(S)}, l \in {RList(OkSlots)} : Step(Op("msm", d, R({0, 1, 3, 16}), R({0, 1}), R({"mix1", "mix2", "small", "zero"}), l), [st EXCEPT ![d] = "ok"])
   \/ /\ Len(prog) = Depth
      /\ CSVWrite("%1$s", <<ToJson([ops |-> prog])>>, Out)
      /\ prog' = <<>> /\ st' = st
